@@ -379,10 +379,14 @@ func c19(c *Ctx) {
 						if bi, isB := cc.Value.(*ssa.Builtin); isB && (bi.Name() == "len" || bi.Name() == "cap") {
 							continue
 						}
-						if f := cc.StaticCallee(); f != nil && f == wr {
+						// the transport's Write / a vectored write: io.Writer must not modify the slice
+						if cc.IsInvoke() && (cc.Method.Name() == "Write") {
 							continue
 						}
-						// a helper of the package: what it does with the parameter is judged the same way
+						if f := cc.StaticCallee(); f != nil && (extName(f) == "(*net.Buffers).WriteTo") {
+							continue
+						}
+						// a helper of the package (Conn.write included): what it does with the parameter is judged the same way
 						if f := cc.StaticCallee(); f != nil && c.P.InPkg(f) && f.Blocks != nil {
 							args := cc.Args
 							good := true
